@@ -36,6 +36,9 @@ pub struct HookState {
     pub contradicted: Vec<ProbeRecord>,
     /// rules that reported failure (in either mode) but left the position moved: `at` -> `real`
     pub failed_moved: Vec<ProbeRecord>,
+    /// hits of the `skip_token` memo, and how many of them handed back a position beyond the current `pos_max`
+    pub memo_hits: u64,
+    pub memo_hits_beyond: u64,
 }
 
 thread_local! {
@@ -104,6 +107,11 @@ pub fn real_result(src: usize, pos: usize, rule_idx: usize, extent: Option<usize
             }
         }
     });
+}
+
+/// `skip_token` answered from its memo with end position `end` while the frame's `pos_max` is `pos_max`
+pub fn memo_hit(end: usize, pos_max: usize) {
+    STATE.with(|s| { let mut s = s.borrow_mut(); s.memo_hits += 1; if end > pos_max { s.memo_hits_beyond += 1; } });
 }
 
 /// a rule returned "no match" and left `state.line` / `state.pos` at `now` instead of `at`
